@@ -106,14 +106,16 @@ fn flatten_log(raw: &Value) -> Decoded {
 
 /// one configuration: `p_eval` / `p_prog` are the periods of the two rules (0 = rule absent); `dup` adds a second rule for
 /// Evaluations (same name: the first rule wins); `missing` adds a rule whose source state does not exist (explicit null);
-/// `iter_rule` adds a rule logging the iteration counter itself every 2nd iteration
-fn logger_case(n: u32, p_eval: u32, p_prog: u32, dup: bool, missing: bool, iter_rule: bool) {
+/// `iter_rule` adds a rule logging the iteration counter itself every 2nd iteration; `scoped` runs the logger inside a `Scope`
+/// (as the local search nested in the shipped ILS templates does): the log configuration lives in the enclosing state and must
+/// still be there, and be used, in every later pass
+fn logger_case(n: u32, p_eval: u32, p_prog: u32, dup: bool, missing: bool, iter_rule: bool, scoped: bool) {
     let iterations = std::any::type_name::<Iterations>();
     let evaluations = std::any::type_name::<Evaluations>();
     let progress = std::any::type_name::<Progress<ValueOf<Iterations>>>();
     let absent = std::any::type_name::<AbsentState>();
     let config = Configuration::<Dummy>::builder()
-        .while_(LessThanN::iterations(n), |b| b.debug(|_, state| *state.borrow_value_mut::<Evaluations>() += 3).do_(Logger::new()))
+        .while_(LessThanN::iterations(n), |b| { let b = b.debug(|_, state| *state.borrow_value_mut::<Evaluations>() += 3); if scoped { b.scope_(|b| b.do_(Logger::new())) } else { b.do_(Logger::new()) } })
         .build();
     let state = config.optimize_with(&Dummy, |state| {
         state.insert(Evaluations(0));
@@ -138,7 +140,7 @@ fn logger_case(n: u32, p_eval: u32, p_prog: u32, dup: bool, missing: bool, iter_
         if !step.is_empty() || (iter_rule && i % 2 == 0) { step.insert(iterations.to_string(), json!(i)); expected.push(step); }
     }
     let fail = |why: &str, got: &Decoded| -> ! {
-        eprintln!("COUNTEREXAMPLE n={n} p_eval={p_eval} p_prog={p_prog} dup={dup} missing={missing} iterations_rule={iter_rule}: {why}\n got      {got:?}\n expected {expected:?}");
+        eprintln!("COUNTEREXAMPLE n={n} p_eval={p_eval} p_prog={p_prog} dup={dup} missing={missing} iterations_rule={iter_rule} logger_in_scope={scoped}: {why}\n got      {got:?}\n expected {expected:?}");
         panic!("experiment record is not exact")
     };
     let raw = flatten_log(&serde_json::to_value(&*state.log()).unwrap());
@@ -147,7 +149,7 @@ fn logger_case(n: u32, p_eval: u32, p_prog: u32, dup: bool, missing: bool, iter_
     for step in serde_json::to_value(&*state.log()).unwrap().as_array().unwrap() {
         if step.as_array().unwrap()[0]["name"].as_str().unwrap() != iterations { fail("the iteration count is not the first entry of a step", &raw) }
     }
-    let path = std::env::temp_dir().join(format!("verif_c15_{}_{}.json", std::process::id(), n * 1000 + p_eval * 100 + p_prog * 10 + dup as u32 * 4 + missing as u32 * 2 + iter_rule as u32));
+    let path = std::env::temp_dir().join(format!("verif_c15_{}_{}.json", std::process::id(), n * 1000 + p_eval * 100 + p_prog * 10 + dup as u32 * 4 + missing as u32 * 2 + iter_rule as u32 + 100000 * scoped as u32));
     state.log().to_json(&path).unwrap();
     let export: Value = serde_json::from_reader(std::fs::File::open(&path).unwrap()).unwrap();
     let _ = std::fs::remove_file(&path);
@@ -196,7 +198,7 @@ pub fn c15_native_logger_json_roundtrip() {
         for p_eval in 0..=3u32 {
             for p_prog in 0..=3u32 {
                 for dup in [false, true] {
-                    for missing in [false, true] { for iter_rule in [false, true] { logger_case(n, p_eval, p_prog, dup, missing, iter_rule); cases += 1; } }
+                    for missing in [false, true] { for iter_rule in [false, true] { for scoped in [false, true] { logger_case(n, p_eval, p_prog, dup, missing, iter_rule, scoped); cases += 1; } } }
                 }
             }
         }
